@@ -227,14 +227,19 @@ def build(x, H, J, salt=0):
     if f == "C":
         props = {uncps(p["k"]): conc_val(p["val"], H, J, salt) for p in x["props"]}
         make = J.jsx_tag_create(uncps(x["name"]))
-        how = salt % 3
+        how = salt % 5
         if how == 0 or not kids:
             return make(*kids, **props)
         c = make(**props)
         if how == 1:
             c.append(*kids)
-        else:
+        elif how == 2:
             c.extend(kids)
+        elif how == 3:
+            c.extend(iter(kids))                  # a one-shot iterable
+        else:
+            c.extend(k for k in kids[:1])
+            c.extend(map(lambda k: k, kids[1:]))
         return c
     raise ValueError(f)
 
